@@ -37,6 +37,8 @@ type natsLeg struct {
 	received int64
 	finished int64
 	broker   *rig.NatsServer
+	writeMu  *sync.Mutex // the processor-wide write mutex (exported accessor)
+	wedged   bool        // workers proven parked for good: do not wait for Serve to return
 }
 
 var natsLegSeq uint64
@@ -50,6 +52,7 @@ func startNatsLeg(broker *rig.NatsServer, proto string, workers uint) (*natsLeg,
 	l.sconn = sconn
 	l.subject = fmt.Sprintf("verif.c14.%d", atomic.AddUint64(&natsLegSeq, 1))
 	p := mainsvc.NewFFooProcessor(l.handler)
+	l.writeMu = p.GetWriteMutex()
 	l.srv = frugal.NewFNatsServerBuilder(sconn, p, rig.ProtocolFactory(proto), []string{l.subject}).
 		WithWorkerCount(workers).
 		WithRequestReceivedEventHandler(func(map[interface{}]interface{}) { atomic.AddInt64(&l.received, 1) }).
@@ -70,10 +73,19 @@ func startNatsLeg(broker *rig.NatsServer, proto string, workers uint) (*natsLeg,
 }
 
 func (l *natsLeg) stop() {
-	l.srv.Stop()
+	stopped := make(chan struct{})
+	go func() { l.srv.Stop(); close(stopped) }()
+	wait := 20 * time.Second
+	if l.wedged {
+		wait = 200 * time.Millisecond // Serve waits for workers that will never return
+	}
+	select {
+	case <-stopped:
+	case <-time.After(wait):
+	}
 	select {
 	case <-l.served:
-	case <-time.After(20 * time.Second):
+	case <-time.After(wait):
 	}
 	l.sconn.Close()
 }
